@@ -15,7 +15,9 @@ import (
 
 func init() { commands["icchdr"] = icchdrCmd }
 
-func be32(v uint32) []int { return []int{int(v >> 24), int(v >> 16 & 255), int(v >> 8 & 255), int(v & 255)} }
+func be32(v uint32) []int {
+	return []int{int(v >> 24), int(v >> 16 & 255), int(v >> 8 & 255), int(v & 255)}
+}
 func ints(b []byte) []int {
 	o := make([]int, len(b))
 	for i, x := range b {
